@@ -1,6 +1,10 @@
 package props
 
 import (
+	"strings"
+	"path/filepath"
+	"os"
+	"bytes"
 	"encoding/binary"
 	"fmt"
 	"testing"
@@ -13,7 +17,7 @@ import (
 
 // C04 — GREASE values are well-formed, distinct where required, and fresh.
 func TestC04(t *testing.T) {
-	r := mon.New("C04", "(a) exhaustive GetBoringGREASEValue seeds x indices; (b) N draws of QUIC GREASE id / version generators and marshalled transport parameters; (c) parrots/fingerprinted copies x N connections: each GREASE position of the spec parsed from the wire. distinct = distinct (generator|parrot, observed value) pairs")
+	r := mon.New("C04", "(a) exhaustive GetBoringGREASEValue seeds x indices; (b) N draws of QUIC GREASE id / version generators and marshalled transport parameters; (c) parrots / fingerprinted copies / JSON-described specs (GREASE ids with and without keep_id) x N connections, with a fresh spec per connection and with ONE spec object reused for all of them: each GREASE position of the spec parsed from the wire. distinct = distinct (generator|parrot, observed value) pairs")
 	defer r.Finish(t)
 
 	// (a) exhaustive over the seed value space per index
@@ -109,6 +113,9 @@ func TestC04(t *testing.T) {
 		name string
 		id   tls.ClientHelloID
 		spec func() (*tls.ClientHelloSpec, error)
+		// ref: a pristine copy of the spec to read the GREASE positions from, when spec()
+		// hands out an object that earlier connections have already used (nil: spec itself)
+		ref func() (*tls.ClientHelloSpec, error)
 	}
 	var targets []target
 	for _, p := range AllParrots {
@@ -116,7 +123,7 @@ func TestC04(t *testing.T) {
 		targets = append(targets, target{p.Name, p.ID, func() (*tls.ClientHelloSpec, error) {
 			s, err := tls.UTLSIdToSpec(p.ID)
 			return &s, err
-		}})
+		}, nil})
 	}
 	// fingerprinted copies of GREASE-bearing parrots
 	for _, pn := range []string{"Chrome_133", "Chrome_120", "Chrome_102", "Chrome_83", "Chrome_70", "Edge_106", "QQ_11_1", "Safari_16_0", "IOS_14"} {
@@ -130,7 +137,7 @@ func TestC04(t *testing.T) {
 		targets = append(targets, target{"fp:" + pn, tls.HelloCustom, func() (*tls.ClientHelloSpec, error) {
 			f := &tls.Fingerprinter{}
 			return f.FingerprintClientHello(rec)
-		}})
+		}, nil})
 	}
 	// specs whose GREASE key share carries a body of another length than the parrots' single
 	// byte: custom specs derived from a parrot's spec, and fingerprinted copies of a
@@ -154,7 +161,7 @@ func TestC04(t *testing.T) {
 					}
 				}
 				return &sp, nil
-			}})
+			}, nil})
 			raw, _, err, _ := buildHello(&tls.Config{ServerName: "example.test", OmitEmptyPsk: true}, p.ID, nil)
 			if err != nil {
 				continue
@@ -176,7 +183,48 @@ func TestC04(t *testing.T) {
 			targets = append(targets, target{fmt.Sprintf("fp:%s+grease-share-%dB", pn, n), tls.HelloCustom, func() (*tls.ClientHelloSpec, error) {
 				f := &tls.Fingerprinter{}
 				return f.FingerprintClientHello(rec)
-			}})
+			}, nil})
+		}
+	}
+	// the SAME spec object applied to one connection after the other (fingerprint once, dial
+	// many times; a package-level spec variable): ApplyPreset writes into the spec's extension
+	// objects, and what it leaves there must not pin the next connection's GREASE values
+	for _, base := range append([]target(nil), targets...) {
+		switch base.name {
+		case "Chrome_133", "Chrome_102", "Safari_16_0", "fp:Chrome_120", "fp:Edge_106", "fp:IOS_14":
+			base := base
+			var shared *tls.ClientHelloSpec
+			targets = append(targets, target{"shared:" + base.name, tls.HelloCustom, func() (*tls.ClientHelloSpec, error) {
+				if shared == nil {
+					sp, err := base.spec()
+					if err != nil {
+						return nil, err
+					}
+					shared = sp
+				}
+				return shared, nil
+			}, base.spec})
+		}
+	}
+	// JSON-described specs whose GREASE extensions carry ids, with and without keep_id
+	if files, _ := filepath.Glob(filepath.Join(repoDir(), "testdata", "ClientHello-JSON-*.json")); len(files) > 0 {
+		for fi, fn := range files {
+			doc, err := os.ReadFile(fn)
+			if err != nil || !bytes.Contains(doc, []byte(`{"name": "GREASE"}`)) {
+				continue
+			}
+			for v := 0; v < 4; v++ {
+				id := 0x0a0a + 0x1010*((fi*4+v*5)%16)
+				d := bytes.Replace(doc, []byte(`{"name": "GREASE"}`), []byte(fmt.Sprintf(`{"name": "GREASE", "id": %d, "keep_id": %v}`, id, v%2 == 0)), []int{1, 1, 2, 2}[v])
+				name := fmt.Sprintf("json:%s/keep%d", strings.TrimSuffix(filepath.Base(fn), ".json"), v)
+				targets = append(targets, target{name, tls.HelloCustom, func() (*tls.ClientHelloSpec, error) {
+					var sp tls.ClientHelloSpec
+					if err := sp.UnmarshalJSON(d); err != nil {
+						return nil, err
+					}
+					return &sp, nil
+				}, nil})
+			}
 		}
 	}
 	greaseTargets := 0
@@ -209,6 +257,9 @@ func TestC04(t *testing.T) {
 			}
 			// cipher suites: positions where the spec has a GREASE value
 			ref, _ := tg.spec()
+			if tg.ref != nil {
+				ref, _ = tg.ref()
+			}
 			for i, cs := range ref.CipherSuites {
 				if wire.IsGREASE(cs) {
 					hasGrease["cipher"] = true
